@@ -16,6 +16,7 @@ Cond(k) ==
     [] k = 5 -> [p |-> 1, q |-> 1, align |-> TRUE, ends |-> <<13, 40, -4>>, thr8 |-> 5, beta8 |-> 0, ht |-> 0, vol |-> 0, gvw4 |-> 4, fp |-> 0, rate |-> 0, form |-> "slice"]
     [] k = 6 -> [p |-> 2, q |-> 1, align |-> TRUE, ends |-> <<-4, 27, 27>>, thr8 |-> 6, beta8 |-> 4, ht |-> -12, vol |-> 5, gvw4 |-> 6, fp |-> 480, rate |-> 0, form |-> "slice"]
     [] k = 7 -> [p |-> 1, q |-> 1, align |-> TRUE, ends |-> <<-4, -4, -4>>, thr8 |-> 4, beta8 |-> 0, ht |-> 0, vol |-> 0, gvw4 |-> 4, fp |-> 0, rate |-> 0, form |-> "labels"]
+    [] k \in 9..17 -> [p |-> 1, q |-> 1, align |-> FALSE, ends |-> <<>>, thr8 |-> k - 9, beta8 |-> 0, ht |-> 0, vol |-> 0, gvw4 |-> 4, fp |-> 0, rate |-> 0, form |-> "labels"]
     [] k = 8 -> [p |-> 5, q |-> 4, align |-> FALSE, ends |-> <<>>, thr8 |-> 1, beta8 |-> 1, ht |-> 12, vol |-> -5, gvw4 |-> 3, fp |-> 0, rate |-> 22050, form |-> "vec"]
 Init == f = F0 /\ labs = <<>> /\ ci = 0
 Next == \/ f = F0 /\ \E ns \in NStates, sh \in Shapes, sa \in Salts, sg \in Stages :
